@@ -350,6 +350,15 @@ def _dominated_or_guarded(b, a, c):
     return False
 
 
+def _key(t):
+    """structural key of a term with the call ids dropped"""
+    if isinstance(t, tuple):
+        if len(t) == 4 and t[0] == "call":
+            return ("call", t[1], tuple(_key(x) for x in t[2]), 0)
+        return tuple(_key(x) for x in t)
+    return t
+
+
 def r4(F, R):
     el = [b for b in F.crate_bodies() if (b.impl or {}).get("self_adt") == "tracing::Collector" and b.name.endswith("::emitted_logs")]
     if len(el) != 1:
@@ -370,6 +379,43 @@ def r4(F, R):
     R.check(ok, "lookup-by-message-id", gets[0][1] if gets else b, "scenarios.get(&id of the message)", "a log message is not attributed through its own scenario id")
     logs = [(nb, s, st) for nb in nested for s, st in nb.assigns(lambda st: st["rv"]["k"] == "agg" and st["rv"].get("adt") == "event::Scenario" and st["rv"]["variant"] == "Log")]
     R.check(len(logs) == 1, "builds-log-event", b, "", f"{len(logs)} Scenario::Log aggregates")
+    # the Log event is a event of THAT attempt: its `retries` is the registered entry's retry counter as it is — Some(entry.retries) exactly when
+    # the entry has retry options, None exactly when it has none (every other event of the attempt carries the same value; Normalize keys its
+    # queues by it)
+    for nb in nested:
+        if not any(True for _ in nb.assigns(lambda st: st["rv"]["k"] == "agg" and st["rv"].get("adt") == "event::RetryableScenario")):
+            continue
+        rows = D.Deep(F, nb, max_paths=4000, inline=False).run()
+        okr, whyr, n_r = bool(rows), "empty table", 0
+        none_rows, opt_terms = [], set()
+        for p in rows:
+            # (the event may be returned by a closure / fn item, or pushed into a vector inside a loop of the routine itself)
+            cands = [p.ret] + [a for e in p.effects if e[0] == "call" for a in e[2]]
+            for x in (y for c in cands for y in D.subterms(c)):
+                if not (isinstance(x, tuple) and len(x) == 4 and x[0] == "variant" and x[1] == "event::RetryableScenario" and len(x[3]) == 2):
+                    continue
+                n_r += 1
+                rt = x[3][1]
+                conds = " ∧ ".join(f"{D.fmt(nb, a)[:40]}={o}" for a, o in p.conds)
+                if D.is_variant(rt, "std::option::Option", "Some"):
+                    pay = rt[3][0]
+                    # the optional value the counter is taken from: the first `(.. as Some)` below the payload's projections
+                    inner = pay
+                    while isinstance(inner, tuple) and inner and inner[0] in ("field", "deref", "ref", "refto", "conv") and not (inner[0] == "as"):
+                        inner = inner[1]
+                    src = [a for a, o in p.conds if a[0] == "discr" and o == "Some" and isinstance(inner, tuple) and inner[:1] == ("as",) and inner == ("as", a[1], "Some")]
+                    if not src or not (isinstance(pay, tuple) and pay[0] == "field"):
+                        okr, whyr = False, f"[{conds}] retries = {D.fmt(nb, rt)[:50]} is not a field of the entry's retry options"
+                    opt_terms |= {_key(a[1]) for a in src}
+                elif D.is_variant(rt, "std::option::Option", "None"):
+                    none_rows.append((p, conds))
+                else:
+                    okr, whyr = False, f"[{conds}] retries = {D.fmt(nb, rt)[:60]}"
+        # `None` only where the entry's retry options (the optional value the `Some` rows take the counter from) were learned absent
+        for p, conds in none_rows:
+            if any(a[0] == "discr" and o == "Some" and _key(a[1]) in opt_terms for a, o in p.conds):
+                okr, whyr = False, f"[{conds}] the entry has retry options but the Log event is built with `retries: None`: it belongs to an attempt no other event names"
+        R.check(okr and n_r >= 2 and bool(opt_terms), "log-carries-entry-retries", nb, "retries = entry.retries (Some iff the entry has retry options)", f"Scenario::Log is built with other retries than its attempt's: {whyr}")
     # writer side: parse the id after BEFORE_SCENARIO_ID, None after NO_SCENARIO_ID
     wr = [x for x in F.crate_bodies() if (x.impl or {}).get("self_adt") == "tracing::CollectorWriter" and (x.impl or {}).get("trait") == "std::io::Write" and x.name.endswith("::write")]
     R.check(len(wr) == 1, "collector-writer", None, "", f"{len(wr)} io::Write impls for CollectorWriter")
@@ -442,7 +488,6 @@ def r4(F, R):
         R.check(n_sep >= 2, "writer-marker-sites", w, "", f"{n_sep} marker searches found in CollectorWriter::write")
         # what is sent, per path of `write` (deep table, helpers inlined): (None, text) when the no-id marker ended the
         # record, (Some(parsed id), text) when the id marker did
-        from . import deep as D
         kinds = {}
         for p in D.Deep(F, w, max_paths=2000).run():
             for e in p.effects:
